@@ -153,3 +153,32 @@ Proof. repeat split; vm_compute; reflexivity. Qed.
 Print Assumptions C11_mate_adjust_dumped.
 Print Assumptions C11_mate_adjust_on_engine_samples.
 Print Assumptions C11_capacity_dumped.
+
+(* ---- appended by tools/mkprops.py: frame corollaries ---- *)
+(** frame corollaries: Clear forgets every stored key and keeps the geometry, a table without slots never answers, a probe that misses leaves the table unchanged *)
+From Coq Require Import ZArith NArith List Bool.
+From FG Require Import TTImpl TTCorollaries.
+
+Theorem C11_clear_forgets :
+  forall (t : tt) (k : N),
+         k <> 0%N ->
+         get_entry (clear t) k = None /\ snd (probe (clear t) k) = None /\ fst (probe (clear t) k) = clear t.
+Proof. exact clear_forgets. Qed.
+
+Theorem C11_clear_geometry :
+  forall t : tt,
+         cap (clear t) = cap t /\ mask (clear t) = mask t /\ len (clear t) = 0%N /\ hashfull (clear t) = 0%N.
+Proof. exact clear_geometry. Qed.
+
+Theorem C11_capacity_zero_silent :
+  forall (t : tt) (k : N), cap t = 0%N -> get_entry t k = None /\ probe t k = (t, None).
+Proof. exact capacity_zero_silent. Qed.
+
+Theorem C11_probe_miss_frame :
+  forall (t : tt) (k : N), snd (probe t k) = None -> fst (probe t k) = t.
+Proof. exact probe_miss_frame. Qed.
+
+Print Assumptions C11_clear_forgets.
+Print Assumptions C11_clear_geometry.
+Print Assumptions C11_capacity_zero_silent.
+Print Assumptions C11_probe_miss_frame.
